@@ -13,6 +13,7 @@ import (
 	"os"
 	"sort"
 	"strings"
+	"sync/atomic"
 	"testing"
 
 	errs "github.com/cloudwego/hertz/pkg/common/errors"
@@ -40,30 +41,30 @@ type KV = wire.KV
 
 // ReqSpec is an abstract client request.
 type ReqSpec struct {
-	Method   string   `json:"method"`
-	Host     string   `json:"host"`
-	Path     string   `json:"path"` // decoded path
-	Query    []KV     `json:"query"`
-	Headers  []KV     `json:"headers"`
-	BodyMode string   `json:"body_mode"` // none, bytes, stream-known, stream-unknown, form, multipart
-	BodyLen  int      `json:"body_len"`
-	Form     []KV     `json:"form,omitempty"`
-	Files    []KV     `json:"files,omitempty"` // K = "param|filename", V = content
-	Step     int      `json:"reader_step,omitempty"` // bytes returned per Read by the body stream / file readers
+	Method   string `json:"method"`
+	Host     string `json:"host"`
+	Path     string `json:"path"` // decoded path
+	Query    []KV   `json:"query"`
+	Headers  []KV   `json:"headers"`
+	BodyMode string `json:"body_mode"` // none, bytes, stream-known, stream-unknown, form, multipart
+	BodyLen  int    `json:"body_len"`
+	Form     []KV   `json:"form,omitempty"`
+	Files    []KV   `json:"files,omitempty"`       // K = "param|filename", V = content
+	Step     int    `json:"reader_step,omitempty"` // bytes returned per Read by the body stream / file readers
 	// URLForm varies how the URL string given to SetRequestURI is written: "" as usual; "no-path": the
 	// authority is followed directly by "?query" (only for the path "/"); "fragment": "#sec/3?x" is
 	// appended (a fragment is never sent); "requery": the query is first set to something else and read,
 	// then replaced through SetQueryString
 	URLForm string `json:"url_form,omitempty"`
-	body     []byte
+	body    []byte
 }
 
 type Config struct {
-	Stream          bool `json:"response_body_stream"`
-	MaxRespBody     int  `json:"max_response_body_size"`
-	NoNormHeaders   bool `json:"disable_header_names_normalizing"`
-	NoNormPath      bool `json:"disable_path_normalizing"`
-	Proxy           bool `json:"via_proxy"`
+	Stream        bool `json:"response_body_stream"`
+	MaxRespBody   int  `json:"max_response_body_size"`
+	NoNormHeaders bool `json:"disable_header_names_normalizing"`
+	NoNormPath    bool `json:"disable_path_normalizing"`
+	Proxy         bool `json:"via_proxy"`
 }
 
 type pieceReader struct {
@@ -434,6 +435,8 @@ func countRequests(b []byte) int {
 	return n
 }
 
+var knownD64 int64
+
 func respCloses(r *wire.Resp) bool {
 	return r.Framing == wire.FrUntilClose || wire.HasToken(r.Lines, "Connection", "close") || r.Proto == "HTTP/1.0"
 }
@@ -522,6 +525,15 @@ func checkCase(c *Case) string {
 				return fmt.Sprintf("%s: body of %d bytes exceeds MaxResponseBodySize %d but Do returned err=%q status=%d", id, len(wantBody), c.Cfg.MaxRespBody, o.Err, o.Status)
 			}
 			continue // the connection is closed after the error; the next exchange dials again
+		}
+		if tooLarge && c.Cfg.Stream && o.Err == "" && o.BodyErr == "" {
+			// "The client returns ErrBodyTooLarge if this limit is greater than 0 and response body is
+			// greater than the limit" (documentation of MaxResponseBodySize). With ResponseBodyStream the
+			// limit only sizes the part read ahead and the whole body is delivered: known finding D64.
+			if !ev.ReportKnown(prop, "D64") {
+				return fmt.Sprintf("%s: body of %d bytes exceeds MaxResponseBodySize %d, yet the streaming client delivered it without any error", id, len(wantBody), c.Cfg.MaxRespBody)
+			}
+			atomic.AddInt64(&knownD64, 1)
 		}
 		if o.Err != "" {
 			return fmt.Sprintf("%s: Do failed: %s", id, o.Err)
@@ -685,6 +697,9 @@ func TestC11Exchanges(t *testing.T) {
 			t.Fatalf("%s\nconfig: %+v", msg, c.Cfg)
 		}
 		rec.Class("exchanges-on-a-reused-connection", int64(lastReused))
+		if n := atomic.SwapInt64(&knownD64, 0); n > 0 {
+			rec.Excluded("D64-limit-not-enforced-on-a-streamed-response", n)
+		}
 		if nt && rec.WantSample() {
 			rec.Sample(c)
 		}
